@@ -137,7 +137,18 @@ func genTtmlForVtt(r *rng, R *runner) []byte {
 			R.count("conv.ttml->vtt.region.duplicate_id")
 		}
 		regionIDs[i] = id
-		fmt.Fprintf(&b, "<region xml:id=\"%s\"%s%s/>%s", id, st, layoutAttrs(4, "region"), r.pick("", "\n"))
+		idAttr := fmt.Sprintf(" xml:id=\"%s\"", id)
+		if r.chance(1, 15) {
+			// no identifier: the region is stored under the empty key and written as "Region: id="; no paragraph can name it
+			idAttr, regionIDs[i] = "", "r0"
+			if i == 0 {
+				regionIDs[i] = ""
+			}
+			R.count("conv.ttml->vtt.region.without_id")
+		} else if r.chance(1, 10) {
+			idAttr = fmt.Sprintf(" id=\"%s\"", id) // matched by local name
+		}
+		fmt.Fprintf(&b, "<region%s%s%s/>%s", idAttr, st, layoutAttrs(4, "region"), r.pick("", "\n"))
 		R.count("conv.ttml->vtt.region")
 	}
 	b.WriteString("</layout>\n</head>\n<body" + r.pick("", " tts:textAlign=\"center\"", " region=\"r0\"") + "><div" + r.pick("", " tts:textAlign=\"right\"", " tts:origin=\"1% 2%\"") + ">\n")
@@ -153,8 +164,10 @@ func genTtmlForVtt(r *rng, R *runner) []byte {
 		t += (500 + r.i64n(3000)) * 1e6
 		ref := ""
 		if nr > 0 && r.chance(2, 3) {
-			ref += " region=" + q(regionIDs[r.intn(nr)])
-			R.count("conv.ttml->vtt.p.with_region")
+			if id := regionIDs[r.intn(nr)]; id != "" {
+				ref += " region=" + q(id)
+				R.count("conv.ttml->vtt.p.with_region")
+			}
 		}
 		if ns > 0 && r.chance(1, 2) {
 			ref += fmt.Sprintf(" style=\"s%d\"", r.intn(ns))
